@@ -23,7 +23,7 @@ import sys
 
 from ..core import Check, ROOT, fresh_repo_imports, seed
 from ..tlcrun import MachineryError, SPEC, TLCResult, run_tlc
-from .. import par
+from .. import par, harness
 
 PID = "C17"
 SEP = "¦"          # between the outputs of two operations
@@ -437,6 +437,78 @@ def in_child(fn, *args):
 _POOLS: dict = {}
 
 
+# ---- sweep: every registered filter applied to values that are == but observably different -------------------------------------
+# Process.tla!HistoryIndependent with the memo Key as the code has it (Python ==/hash): for every filter f and every pair (v, w) of
+# the specification's confusable values, the result of rendering `w | f` must not depend on whether `v | f` was rendered before.
+def _confusable_pairs():
+    from markupsafe import Markup
+    return [("markup/str", Markup("<b>&amp;x</b> y"), "<b>&amp;x</b> y"), ("int/bool", 1, True), ("int/float", 1, 1.0),
+            ("str/markup-arg", "a<b", Markup("a<b"))]
+
+
+def _filter_sweep(order):
+    """Runs in a forked child. -> {filter|pair: outcome of the SECOND value of the pair (pair order given by `order`)}"""
+    res = {}
+    for autoescape in (True, False):
+        env = harness.make_env(autoescape=autoescape)
+        for name in sorted(env.filters):
+            for pname, v, w in _confusable_pairs():
+                first, second = (v, w) if order == 0 else (w, v)
+                for src in (f"{{{{ x | {name} }}}}", f"{{{{ x | {name}: x }}}}"):
+                    t, err = harness.parse(env, src)
+                    if err:
+                        continue
+                    harness.render(t, {"x": first}, "sync")
+                    o = harness.render(t, {"x": second}, "sync")
+                    res[f"{name}|{pname}|{src}|{autoescape}"] = o.get("out", "!" + o.get("err", ""))
+    return res
+
+
+def filter_sweep(ck):
+    """w after v (order 0) must equal w alone-first (taken from order 1, where w is rendered first), and vice versa."""
+    a = in_child(_filter_sweep, 0)      # v then w: a[k] = outcome of w with v before it
+    b = in_child(_filter_sweep, 1)      # w then v: b[k] = outcome of v with w before it
+    solo = in_child(_filter_solo)
+    for k in sorted(a):
+        name, pname, src, autoescape = k.split("|", 3)
+        ck.case(("filter-sweep", k))
+        ck.validated()
+        for order, got in ((0, a[k]), (1, b[k])):
+            want = solo[f"{k}|{1 - order}"]
+            if got != want:
+                ck.fail(f"filter {name}: the result for a value depends on an ==-equal but different value ({pname}) having gone through the filter before "
+                        f"(Process.tla!HistoryIndependent)",
+                        {"source": src, "autoescape": autoescape, "pair": pname, "order": order, "observed": got, "alone": want}, sig=f"sweep:{name}:{pname}")
+                break
+
+
+def _filter_solo():
+    """Each (filter, value) rendered as the first use of that filter with that value class in this child process:
+    one fresh Environment AND a cleared set of memo tables per case is not available, so every case runs in its own grandchild."""
+    res = {}
+    for autoescape in (True, False):
+        for pname, v, w in _confusable_pairs():
+            for which, val in ((0, v), (1, w)):
+                part = in_child(_solo_batch, autoescape, pname, which)
+                res.update(part)
+    return res
+
+
+def _solo_batch(autoescape, pname, which):
+    pairs = {p[0]: p for p in _confusable_pairs()}
+    val = pairs[pname][1 + which]
+    env = harness.make_env(autoescape=autoescape)
+    out = {}
+    for name in sorted(env.filters):
+        for src in (f"{{{{ x | {name} }}}}", f"{{{{ x | {name}: x }}}}"):
+            t, err = harness.parse(env, src)
+            if err:
+                continue
+            o = harness.render(t, {"x": val}, "sync")
+            out[f"{name}|{pname}|{src}|{autoescape}|{which}"] = o.get("out", "!" + o.get("err", ""))
+    return out
+
+
 def run_isolated(item):
     """Isolated: the worker was forked for this one history from a process that has rendered nothing (the state Process.tla starts from)."""
     fam, jobs, hows = item
@@ -834,6 +906,7 @@ def run(tier: str) -> int:
         "opaque results (date texts, {{ value }}, the 'pure' snippets) are only required to be a function of their arguments; results the model fixes (counters, cycle, ifchanged, assign/capture, loops, sort/reverse/uniq/concat, macros) are compared as text",
         "TLC results are memoised by the text of Process.tla and the cfg (they do not depend on the code under test)",
     ]
+    filter_sweep(ck)
     return ck.finish()
 
 
